@@ -4,7 +4,7 @@ from concurrent.futures import ThreadPoolExecutor
 
 ROOT = os.path.dirname(os.path.dirname(os.path.abspath(__file__)))
 CACHE = os.path.join(ROOT, '.cache')
-UVH = os.path.join(CACHE, 'harness-target', 'debug', 'uvh')
+UVH = os.environ.get('UV_UVH') or os.path.join(CACHE, 'harness-target', 'debug', 'uvh')   # override: coverage-instrumented build (tools/coverage.sh)
 DRIVER = os.path.join(ROOT, 'coq', 'extraction', 'driver')
 COQ = os.path.join(ROOT, 'coq')
 REPO = '/repo'
